@@ -67,21 +67,6 @@ theorem wfv_cases {v : Vec ℝ} (hv : WFV v) :
     match c, hlen with
     | [a, b, c, d], _ => exact ⟨be, mom, az, _, _, a, b, c, d, rfl⟩
 
-/-! ### evaluating `dispatch` for a unary method -/
-
-/-- unary `dispatch`: one operand that is also the handler -/
-theorem dispatch_unary {S B : Type} (ev : Ev S B) (m : ModuleId) (sc : List S) (ord : Option Ord) (v : Vec S) (n : Nat)
-    (hs : operandSlots m.info.shape = [n]) (key : List KA) (args : List S)
-    (hk : operandKey v n = some (key, args)) :
-    dispatch ev m sc ord [v] [v] =
-      match ev m (key ++ (match ord with | some o => [KA.ord o] | none => [])) (sc ++ args) with
-      | none => .error .typeError
-      | some (out, ret) => wrapResult v v.ty.be v.ty.mom out ret := by
-  unfold dispatch
-  simp [hs, hk, handlerOf]
-  generalize ev m _ _ = r
-  rcases r with _ | ⟨out, ret⟩ <;> rfl
-
 /-! ### 1. rotateZ -/
 
 theorem call_rotateZ {S B : Type} (ev : Ev S B) (K : Consts S) (A : Arith S) (v : Vec S) (a : S) :
@@ -108,7 +93,7 @@ theorem rotateZ_eval4 (K : Consts ℝ) (A : Arith ℝ) (be mom az l t) (ang a b 
 
 /-- KEY LEMMA: `planar_rotateZ` preserves the transverse length, in both azimuthal storages — the reason why the
 stored θ/η/τ of a 3D/4D vector may be passed through -/
-theorem rotateZ_rho (k : Az) (ang a b : ℝ) :
+theorem c01m_rotateZ_preserves_rho (k : Az) (ang a b : ℝ) :
     rhoOf k (planar_rotateZ.eval k ang a b).1 (planar_rotateZ.eval k ang a b).2 = rhoOf k a b := by
   cases k
   · simp only [d_planar_rotateZ, rhoOf]
@@ -133,7 +118,7 @@ theorem rotateZ_y (k : Az) (ang a b : ℝ) :
 /-- the stored longitudinal coordinate denotes the same `z` after `rotateZ` -/
 theorem rotateZ_z (k : Az) (l : Lon) (ang a b c : ℝ) :
     zOf k l (planar_rotateZ.eval k ang a b).1 (planar_rotateZ.eval k ang a b).2 c = zOf k l a b c := by
-  cases l <;> simp only [zOf, rotateZ_rho]
+  cases l <;> simp only [zOf, c01m_rotateZ_preserves_rho]
 
 theorem rotateZ_mag2 (k : Az) (l : Lon) (ang a b c : ℝ) :
     mag2Of k l (planar_rotateZ.eval k ang a b).1 (planar_rotateZ.eval k ang a b).2 c = mag2Of k l a b c := by
@@ -457,6 +442,406 @@ theorem c01m_rotate_axis (K : Consts ℝ) (A : Arith ℝ) (v : Vec ℝ) (hv : WF
     refine spatial_denote _ _ (normSq_axisRot (xOf az' u1 u2, yOf az' u1 u2, zOf az' l' u1 u2 u3) hpos ang) v hv hd (fun l a b c h => ?_) hT
     rw [refine_spatial_rotate_axis _ _ _ _ _ _ _ _ _ _ _ hTax h, axisRot_eq]; rfl
   · simp [VT.dim] at hdax
+
+/-! ### 3. accessors: the value only depends on the denotation -/
+
+/-- the stored coordinates (azimuthal pair, longitudinal) and the longitudinal key, totalised -/
+def c3 (v : Vec ℝ) : ℝ × ℝ × ℝ :=
+  match v.c with
+  | a :: b :: c :: _ => (a, b, c)
+  | a :: b :: _ => (a, b, 0)
+  | _ => (0, 0, 0)
+def lonOf (v : Vec ℝ) : Lon := v.ty.lon.getD .z
+
+/-- a hypothesis on the stored azimuthal coordinates -/
+def Stored2 (P : Az → ℝ → ℝ → Prop) (v : Vec ℝ) : Prop := P v.ty.az (c3 v).1 (c3 v).2.1
+/-- a hypothesis on the stored azimuthal and longitudinal coordinates -/
+def Stored3 (P : Az → Lon → ℝ → ℝ → ℝ → Prop) (v : Vec ℝ) : Prop := P v.ty.az (lonOf v) (c3 v).1 (c3 v).2.1 (c3 v).2.2
+
+theorem denote_planar {v : Vec ℝ} (hv : WFV v) {x y : ℝ} {rest : List ℝ} (h : denote v = some (x :: y :: rest)) :
+    x = xOf v.ty.az (c3 v).1 (c3 v).2.1 ∧ y = yOf v.ty.az (c3 v).1 (c3 v).2.1 := by
+  rcases wfv_cases hv with ⟨be, mom, az, a, b, rfl⟩ | ⟨be, mom, az, l, a, b, c, rfl⟩ |
+    ⟨be, mom, az, l, t, a, b, c, d, rfl⟩
+  all_goals
+    simp only [denote, Option.some.injEq, List.cons.injEq] at h
+    exact ⟨h.1.symm, h.2.1.symm⟩
+
+theorem denote_spatial {v : Vec ℝ} (hv : WFV v) {x y z : ℝ} {rest : List ℝ}
+    (h : denote v = some (x :: y :: z :: rest)) :
+    3 ≤ v.ty.dim ∧ x = xOf v.ty.az (c3 v).1 (c3 v).2.1 ∧ y = yOf v.ty.az (c3 v).1 (c3 v).2.1 ∧
+      z = zOf v.ty.az (lonOf v) (c3 v).1 (c3 v).2.1 (c3 v).2.2 := by
+  rcases wfv_cases hv with ⟨be, mom, az, a, b, rfl⟩ | ⟨be, mom, az, l, a, b, c, rfl⟩ |
+    ⟨be, mom, az, l, t, a, b, c, d, rfl⟩
+  · simp [denote] at h
+  all_goals
+    simp only [denote, Option.some.injEq, List.cons.injEq] at h
+    exact ⟨by simp [VT.dim], h.1.symm, h.2.1.symm, h.2.2.1.symm⟩
+
+theorem acc_x_eval (K : Consts ℝ) (A : Arith ℝ) (v : Vec ℝ) (hv : WFV v) :
+    call evR K A "x" v [] = .ok (.scalar (planar_x.eval v.ty.az (c3 v).1 (c3 v).2.1)) := by
+  rcases wfv_cases hv with ⟨be, mom, az, a, b, rfl⟩ | ⟨be, mom, az, l, a, b, c, rfl⟩ |
+    ⟨be, mom, az, l, t, a, b, c, d, rfl⟩
+  all_goals cases az <;> rfl
+
+theorem acc_y_eval (K : Consts ℝ) (A : Arith ℝ) (v : Vec ℝ) (hv : WFV v) :
+    call evR K A "y" v [] = .ok (.scalar (planar_y.eval v.ty.az (c3 v).1 (c3 v).2.1)) := by
+  rcases wfv_cases hv with ⟨be, mom, az, a, b, rfl⟩ | ⟨be, mom, az, l, a, b, c, rfl⟩ |
+    ⟨be, mom, az, l, t, a, b, c, d, rfl⟩
+  all_goals cases az <;> rfl
+
+theorem acc_rho_eval (K : Consts ℝ) (A : Arith ℝ) (v : Vec ℝ) (hv : WFV v) :
+    call evR K A "rho" v [] = .ok (.scalar (planar_rho.eval v.ty.az (c3 v).1 (c3 v).2.1)) := by
+  rcases wfv_cases hv with ⟨be, mom, az, a, b, rfl⟩ | ⟨be, mom, az, l, a, b, c, rfl⟩ |
+    ⟨be, mom, az, l, t, a, b, c, d, rfl⟩
+  all_goals cases az <;> rfl
+
+theorem acc_rho2_eval (K : Consts ℝ) (A : Arith ℝ) (v : Vec ℝ) (hv : WFV v) :
+    call evR K A "rho2" v [] = .ok (.scalar (planar_rho2.eval v.ty.az (c3 v).1 (c3 v).2.1)) := by
+  rcases wfv_cases hv with ⟨be, mom, az, a, b, rfl⟩ | ⟨be, mom, az, l, a, b, c, rfl⟩ |
+    ⟨be, mom, az, l, t, a, b, c, d, rfl⟩
+  all_goals cases az <;> rfl
+
+theorem acc_phi_eval (K : Consts ℝ) (A : Arith ℝ) (v : Vec ℝ) (hv : WFV v) :
+    call evR K A "phi" v [] = .ok (.scalar (planar_phi.eval v.ty.az (c3 v).1 (c3 v).2.1)) := by
+  rcases wfv_cases hv with ⟨be, mom, az, a, b, rfl⟩ | ⟨be, mom, az, l, a, b, c, rfl⟩ |
+    ⟨be, mom, az, l, t, a, b, c, d, rfl⟩
+  all_goals cases az <;> rfl
+
+theorem acc_z_eval (K : Consts ℝ) (A : Arith ℝ) (v : Vec ℝ) (hv : WFV v) (hd : 3 ≤ v.ty.dim) :
+    call evR K A "z" v [] = .ok (.scalar (spatial_z.eval v.ty.az (lonOf v) (c3 v).1 (c3 v).2.1 (c3 v).2.2)) := by
+  rcases wfv_cases hv with ⟨be, mom, az, a, b, rfl⟩ | ⟨be, mom, az, l, a, b, c, rfl⟩ |
+    ⟨be, mom, az, l, t, a, b, c, d, rfl⟩
+  · simp [VT.dim] at hd
+  all_goals cases az <;> cases l <;> rfl
+
+theorem acc_mag2_eval (K : Consts ℝ) (A : Arith ℝ) (v : Vec ℝ) (hv : WFV v) (hd : 3 ≤ v.ty.dim) :
+    call evR K A "mag2" v [] = .ok (.scalar (spatial_mag2.eval v.ty.az (lonOf v) (c3 v).1 (c3 v).2.1 (c3 v).2.2)) := by
+  rcases wfv_cases hv with ⟨be, mom, az, a, b, rfl⟩ | ⟨be, mom, az, l, a, b, c, rfl⟩ |
+    ⟨be, mom, az, l, t, a, b, c, d, rfl⟩
+  · simp [VT.dim] at hd
+  all_goals cases az <;> cases l <;> rfl
+
+theorem acc_mag_eval (K : Consts ℝ) (A : Arith ℝ) (v : Vec ℝ) (hv : WFV v) (hd : 3 ≤ v.ty.dim) :
+    call evR K A "mag" v [] = .ok (.scalar (spatial_mag.eval v.ty.az (lonOf v) (c3 v).1 (c3 v).2.1 (c3 v).2.2)) := by
+  rcases wfv_cases hv with ⟨be, mom, az, a, b, rfl⟩ | ⟨be, mom, az, l, a, b, c, rfl⟩ |
+    ⟨be, mom, az, l, t, a, b, c, d, rfl⟩
+  · simp [VT.dim] at hd
+  all_goals cases az <;> cases l <;> rfl
+
+theorem acc_costheta_eval (K : Consts ℝ) (A : Arith ℝ) (v : Vec ℝ) (hv : WFV v) (hd : 3 ≤ v.ty.dim) :
+    call evR K A "costheta" v [] = .ok (.scalar (spatial_costheta.eval v.ty.az (lonOf v) (c3 v).1 (c3 v).2.1 (c3 v).2.2)) := by
+  rcases wfv_cases hv with ⟨be, mom, az, a, b, rfl⟩ | ⟨be, mom, az, l, a, b, c, rfl⟩ |
+    ⟨be, mom, az, l, t, a, b, c, d, rfl⟩
+  · simp [VT.dim] at hd
+  all_goals cases az <;> cases l <;> rfl
+
+theorem acc_cottheta_eval (K : Consts ℝ) (A : Arith ℝ) (v : Vec ℝ) (hv : WFV v) (hd : 3 ≤ v.ty.dim) :
+    call evR K A "cottheta" v [] = .ok (.scalar (spatial_cottheta.eval v.ty.az (lonOf v) (c3 v).1 (c3 v).2.1 (c3 v).2.2)) := by
+  rcases wfv_cases hv with ⟨be, mom, az, a, b, rfl⟩ | ⟨be, mom, az, l, a, b, c, rfl⟩ |
+    ⟨be, mom, az, l, t, a, b, c, d, rfl⟩
+  · simp [VT.dim] at hd
+  all_goals cases az <;> cases l <;> rfl
+
+theorem acc_theta_eval (K : Consts ℝ) (A : Arith ℝ) (v : Vec ℝ) (hv : WFV v) (hd : 3 ≤ v.ty.dim) :
+    call evR K A "theta" v [] = .ok (.scalar (spatial_theta.eval v.ty.az (lonOf v) (c3 v).1 (c3 v).2.1 (c3 v).2.2)) := by
+  rcases wfv_cases hv with ⟨be, mom, az, a, b, rfl⟩ | ⟨be, mom, az, l, a, b, c, rfl⟩ |
+    ⟨be, mom, az, l, t, a, b, c, d, rfl⟩
+  · simp [VT.dim] at hd
+  all_goals cases az <;> cases l <;> rfl
+
+theorem acc_eta_eval (K : Consts ℝ) (A : Arith ℝ) (v : Vec ℝ) (hv : WFV v) (hd : 3 ≤ v.ty.dim) :
+    call evR K A "eta" v [] = .ok (.scalar (spatial_eta.eval v.ty.az (lonOf v) (c3 v).1 (c3 v).2.1 (c3 v).2.2)) := by
+  rcases wfv_cases hv with ⟨be, mom, az, a, b, rfl⟩ | ⟨be, mom, az, l, a, b, c, rfl⟩ |
+    ⟨be, mom, az, l, t, a, b, c, d, rfl⟩
+  · simp [VT.dim] at hd
+  all_goals cases az <;> cases l <;> rfl
+
+theorem rhoOf_eq_sqrt {k : Az} {a b : ℝ} (h : Canon2 k a b) : rhoOf k a b = sqrt (xOf k a b ^ 2 + yOf k a b ^ 2) := by
+  rw [Spec.sq_xOf_add_sq_yOf, Real.sqrt_sq (Spec.rhoOf_nonneg h)]
+
+/-- **planar accessors on 2D, 3D and 4D vectors**: `x`, `y` -/
+theorem c01m_acc_x (K : Consts ℝ) (A : Arith ℝ) (v : Vec ℝ) (hv : WFV v) (x y : ℝ) (rest : List ℝ)
+    (h : denote v = some (x :: y :: rest)) : call evR K A "x" v [] = .ok (.scalar x) := by
+  rw [acc_x_eval K A v hv, refine_planar_x, (denote_planar hv h).1]
+
+theorem c01m_acc_y (K : Consts ℝ) (A : Arith ℝ) (v : Vec ℝ) (hv : WFV v) (x y : ℝ) (rest : List ℝ)
+    (h : denote v = some (x :: y :: rest)) : call evR K A "y" v [] = .ok (.scalar y) := by
+  rw [acc_y_eval K A v hv, refine_planar_y, (denote_planar hv h).2]
+
+/-- `rho = √(x² + y²)` of the denotation (`0 ≤ ρ` for polar storage) -/
+theorem c01m_acc_rho (K : Consts ℝ) (A : Arith ℝ) (v : Vec ℝ) (hv : WFV v) (hc : Stored2 Canon2 v) (x y : ℝ)
+    (rest : List ℝ) (h : denote v = some (x :: y :: rest)) :
+    call evR K A "rho" v [] = .ok (.scalar (sqrt (x ^ 2 + y ^ 2))) := by
+  rw [acc_rho_eval K A v hv, refine_planar_rho, (denote_planar hv h).1, (denote_planar hv h).2, rhoOf_eq_sqrt hc]
+
+theorem c01m_acc_rho2 (K : Consts ℝ) (A : Arith ℝ) (v : Vec ℝ) (hv : WFV v) (x y : ℝ) (rest : List ℝ)
+    (h : denote v = some (x :: y :: rest)) : call evR K A "rho2" v [] = .ok (.scalar (x ^ 2 + y ^ 2)) := by
+  rw [acc_rho2_eval K A v hv, refine_planar_rho2, (denote_planar hv h).1, (denote_planar hv h).2]
+
+/-- `phi = arctan2(y, x)` of the denotation (polar storage: `0 < ρ`, stored φ in `(-π, π]`) -/
+theorem c01m_acc_phi (K : Consts ℝ) (A : Arith ℝ) (v : Vec ℝ) (hv : WFV v)
+    (hc : Stored2 (fun k a b => 0 < rhoOf k a b ∧ CanonPhi k a b) v) (x y : ℝ) (rest : List ℝ)
+    (h : denote v = some (x :: y :: rest)) : call evR K A "phi" v [] = .ok (.scalar (P.arctan2 y x)) := by
+  rw [acc_phi_eval K A v hv, refine_planar_phi _ _ _ hc.1 hc.2, (denote_planar hv h).1, (denote_planar hv h).2]
+
+/-- **spatial accessors on 3D and 4D vectors** -/
+theorem c01m_acc_z (K : Consts ℝ) (A : Arith ℝ) (v : Vec ℝ) (hv : WFV v)
+    (hc : Stored3 (fun _ l _ _ c => TanOK l c) v) (x y z : ℝ) (rest : List ℝ)
+    (h : denote v = some (x :: y :: z :: rest)) : call evR K A "z" v [] = .ok (.scalar z) := by
+  obtain ⟨hd, hx, hy, hz⟩ := denote_spatial hv h
+  rw [acc_z_eval K A v hv hd, refine_spatial_z _ _ _ _ _ hc, hz]
+
+theorem c01m_acc_mag2 (K : Consts ℝ) (A : Arith ℝ) (v : Vec ℝ) (hv : WFV v)
+    (hc : Stored3 (fun _ l _ _ c => SinOK l c) v) (x y z : ℝ) (rest : List ℝ)
+    (h : denote v = some (x :: y :: z :: rest)) :
+    call evR K A "mag2" v [] = .ok (.scalar (x ^ 2 + y ^ 2 + z ^ 2)) := by
+  obtain ⟨hd, hx, hy, hz⟩ := denote_spatial hv h
+  rw [acc_mag2_eval K A v hv hd, refine_spatial_mag2 _ _ _ _ _ hc, hx, hy, hz]; rfl
+
+theorem c01m_acc_mag (K : Consts ℝ) (A : Arith ℝ) (v : Vec ℝ) (hv : WFV v)
+    (hc : Stored3 (fun k l a b c => Canon2 k a b ∧ SinOK l c) v) (x y z : ℝ) (rest : List ℝ)
+    (h : denote v = some (x :: y :: z :: rest)) :
+    call evR K A "mag" v [] = .ok (.scalar (sqrt (x ^ 2 + y ^ 2 + z ^ 2))) := by
+  obtain ⟨hd, hx, hy, hz⟩ := denote_spatial hv h
+  rw [acc_mag_eval K A v hv hd, refine_spatial_mag _ _ _ _ _ hc.1 hc.2, hx, hy, hz]; rfl
+
+theorem c01m_acc_costheta (K : Consts ℝ) (A : Arith ℝ) (v : Vec ℝ) (hv : WFV v)
+    (hc : Stored3 (fun k l a b c => Canon3 k l a b c ∧ 0 < mag2Of k l a b c) v) (x y z : ℝ) (rest : List ℝ)
+    (h : denote v = some (x :: y :: z :: rest)) :
+    call evR K A "costheta" v [] = .ok (.scalar (z / sqrt (x ^ 2 + y ^ 2 + z ^ 2))) := by
+  obtain ⟨hd, hx, hy, hz⟩ := denote_spatial hv h
+  rw [acc_costheta_eval K A v hv hd, refine_spatial_costheta _ _ _ _ _ hc.1 hc.2, hx, hy, hz]; rfl
+
+theorem c01m_acc_theta (K : Consts ℝ) (A : Arith ℝ) (v : Vec ℝ) (hv : WFV v)
+    (hc : Stored3 (fun k l a b c => Canon3 k l a b c ∧ 0 < mag2Of k l a b c) v) (x y z : ℝ) (rest : List ℝ)
+    (h : denote v = some (x :: y :: z :: rest)) :
+    call evR K A "theta" v [] = .ok (.scalar (arccos (z / sqrt (x ^ 2 + y ^ 2 + z ^ 2)))) := by
+  obtain ⟨hd, hx, hy, hz⟩ := denote_spatial hv h
+  rw [acc_theta_eval K A v hv hd, refine_spatial_theta _ _ _ _ _ hc.1 hc.2, hx, hy, hz]; rfl
+
+theorem c01m_acc_cottheta (K : Consts ℝ) (A : Arith ℝ) (v : Vec ℝ) (hv : WFV v)
+    (hc : Stored3 (fun k l a b c => 0 < rhoOf k a b ∧ TanOK l c) v) (x y z : ℝ) (rest : List ℝ)
+    (h : denote v = some (x :: y :: z :: rest)) :
+    call evR K A "cottheta" v [] = .ok (.scalar (z / sqrt (x ^ 2 + y ^ 2))) := by
+  obtain ⟨hd, hx, hy, hz⟩ := denote_spatial hv h
+  have h2 : Canon2 v.ty.az (c3 v).1 (c3 v).2.1 := by
+    have := hc.1; revert this; cases v.ty.az <;> simp only [Canon2, rhoOf] <;> intro h <;> first | trivial | exact h.le
+  rw [acc_cottheta_eval K A v hv hd, refine_spatial_cottheta _ _ _ _ _ hc.1 hc.2, hx, hy, hz, rhoOf_eq_sqrt h2]
+
+theorem c01m_acc_eta (K : Consts ℝ) (A : Arith ℝ) (v : Vec ℝ) (hv : WFV v)
+    (hc : Stored3 (fun k l a b c => 0 < rhoOf k a b ∧ CanonLon k l a b c) v) (x y z : ℝ) (rest : List ℝ)
+    (h : denote v = some (x :: y :: z :: rest)) :
+    call evR K A "eta" v [] = .ok (.scalar (arsinh (z / sqrt (x ^ 2 + y ^ 2)))) := by
+  obtain ⟨hd, hx, hy, hz⟩ := denote_spatial hv h
+  have h2 : Canon2 v.ty.az (c3 v).1 (c3 v).2.1 := by
+    have := hc.1; revert this; cases v.ty.az <;> simp only [Canon2, rhoOf] <;> intro h <;> first | trivial | exact h.le
+  rw [acc_eta_eval K A v hv hd, refine_spatial_eta _ _ _ _ _ hc.1 hc.2, hx, hy, hz, rhoOf_eq_sqrt h2]
+
+/-- e.g. a 4D vector stored as (ρ, φ, θ, τ) and the one stored as (x, y, z, t) with the same denotation have the same
+`x`, `rho2`, `z`, `mag2` -/
+example (K : Consts ℝ) (A : Arith ℝ) (v w : Vec ℝ) (hv : WFV v) (hw : WFV w) (x y z t : ℝ)
+    (h1 : denote v = some [x, y, z, t]) (h2 : denote w = some [x, y, z, t])
+    (hcv : Stored3 (fun _ l _ _ c => TanOK l c) v) (hcw : Stored3 (fun _ l _ _ c => TanOK l c) w) :
+    call evR K A "x" v [] = call evR K A "x" w [] ∧ call evR K A "rho2" v [] = call evR K A "rho2" w [] ∧
+      call evR K A "z" v [] = call evR K A "z" w [] := by
+  rw [c01m_acc_x K A v hv _ _ _ h1, c01m_acc_x K A w hw _ _ _ h2, c01m_acc_rho2 K A v hv _ _ _ h1,
+    c01m_acc_rho2 K A w hw _ _ _ h2, c01m_acc_z K A v hv hcv _ _ _ _ h1, c01m_acc_z K A w hw hcw _ _ _ _ h2]
+  exact ⟨rfl, rfl, rfl⟩
+
+/-! ### 4. `to_Vector2D/3D` projections and `to_Vector3D/4D` embeddings -/
+
+/-- **projection to 2D**: the denotation is the `[x, y]` prefix (a stored θ/η/τ is simply dropped) -/
+theorem c01m_to_Vector2D (K : Consts ℝ) (A : Arith ℝ) (v : Vec ℝ) (hv : WFV v) :
+    ∃ w, call evR K A "to_Vector2D" v [] = .ok (.vec w) ∧ WFV w ∧ w.ty.dim = 2 ∧
+      denote w = (denote v).map (List.take 2) := by
+  rcases wfv_cases hv with ⟨be, mom, az, a, b, rfl⟩ | ⟨be, mom, az, l, a, b, c, rfl⟩ |
+    ⟨be, mom, az, l, t, a, b, c, d, rfl⟩
+  all_goals exact ⟨_, rfl, ⟨by simp, rfl⟩, rfl, rfl⟩
+
+/-- **projection to 3D** of a 3D or 4D vector: the `[x, y, z]` prefix -/
+theorem c01m_to_Vector3D_proj (K : Consts ℝ) (A : Arith ℝ) (v : Vec ℝ) (hv : WFV v) (hd : 3 ≤ v.ty.dim) :
+    ∃ w, call evR K A "to_Vector3D" v [] = .ok (.vec w) ∧ WFV w ∧ w.ty.dim = 3 ∧
+      denote w = (denote v).map (List.take 3) := by
+  rcases wfv_cases hv with ⟨be, mom, az, a, b, rfl⟩ | ⟨be, mom, az, l, a, b, c, rfl⟩ |
+    ⟨be, mom, az, l, t, a, b, c, d, rfl⟩
+  · simp [VT.dim] at hd
+  all_goals exact ⟨_, rfl, ⟨by simp, rfl⟩, rfl, rfl⟩
+
+/-- the same under the other public names -/
+theorem c01m_to_2D_3D_names {S B : Type} (ev : Ev S B) (K : Consts S) (A : Arith S) (v : Vec S) (args : List (Arg S)) :
+    call ev K A "to_2D" v args = call ev K A "to_Vector2D" v args ∧
+    call ev K A "to_3D" v args = call ev K A "to_Vector3D" v args ∧
+    call ev K A "to_4D" v args = call ev K A "to_Vector4D" v args := ⟨rfl, rfl, rfl⟩
+
+/-- **embedding 2D → 3D**, evaluated: the keyword value is STORED in the coordinate type the keyword names -/
+theorem to_Vector3D_kw_eval (K : Consts ℝ) (A : Arith ℝ) (be mom az) (a b s : ℝ) :
+    ∀ p ∈ [("z", Lon.z), ("pz", Lon.z), ("theta", Lon.theta), ("eta", Lon.eta)],
+      call evR K A "to_Vector3D" ⟨⟨be, mom, az, none, none⟩, [a, b]⟩ [.kw p.1 s] =
+        .ok (.vec ⟨⟨be, mom, az, some p.2, none⟩, [a, b, s]⟩) := by
+  intro p hp
+  simp only [List.mem_cons, List.not_mem_nil, or_false] at hp
+  rcases hp with rfl | rfl | rfl | rfl <;> rfl
+
+/-- **embedding 2D → 3D with `z=`/`pz=`** (or without keyword: `z = 0.0`): the denotation is extended by the value -/
+theorem c01m_to_Vector3D_z (K : Consts ℝ) (A : Arith ℝ) (v : Vec ℝ) (hv : WFV v) (hd : v.ty.dim = 2) (s : ℝ) :
+    (∃ w, call evR K A "to_Vector3D" v [.kw "z" s] = .ok (.vec w) ∧ WFV w ∧ denote w = (denote v).map (· ++ [s])) ∧
+    (∃ w, call evR K A "to_Vector3D" v [.kw "pz" s] = .ok (.vec w) ∧ WFV w ∧ denote w = (denote v).map (· ++ [s])) ∧
+    (∃ w, call evR K A "to_Vector3D" v [] = .ok (.vec w) ∧ WFV w ∧ denote w = (denote v).map (· ++ [K.zeroF])) := by
+  rcases wfv_cases hv with ⟨be, mom, az, a, b, rfl⟩ | ⟨be, mom, az, l, a, b, c, rfl⟩ |
+    ⟨be, mom, az, l, t, a, b, c, d, rfl⟩
+  · exact ⟨⟨_, rfl, ⟨by simp, rfl⟩, rfl⟩, ⟨_, rfl, ⟨by simp, rfl⟩, rfl⟩, ⟨_, rfl, ⟨by simp, rfl⟩, rfl⟩⟩
+  · simp [VT.dim] at hd
+  · simp [VT.dim] at hd
+
+/-- **embedding 2D → 3D with `theta=` / `eta=`**: `z = ρ cot θ` resp. `ρ sinh η` with ρ of the denotation -/
+theorem c01m_to_Vector3D_theta_eta (K : Consts ℝ) (A : Arith ℝ) (v : Vec ℝ) (hv : WFV v) (hd : v.ty.dim = 2)
+    (hc : Stored2 Canon2 v) (s x y : ℝ) (h : denote v = some [x, y]) :
+    (∃ w, call evR K A "to_Vector3D" v [.kw "theta" s] = .ok (.vec w) ∧ WFV w ∧
+      denote w = some [x, y, sqrt (x ^ 2 + y ^ 2) * (cos s / sin s)]) ∧
+    (∃ w, call evR K A "to_Vector3D" v [.kw "eta" s] = .ok (.vec w) ∧ WFV w ∧
+      denote w = some [x, y, sqrt (x ^ 2 + y ^ 2) * sinh s]) := by
+  rcases wfv_cases hv with ⟨be, mom, az, a, b, rfl⟩ | ⟨be, mom, az, l, a, b, c, rfl⟩ |
+    ⟨be, mom, az, l, t, a, b, c, d, rfl⟩
+  · have hr := rhoOf_eq_sqrt hc
+    simp only [denote, Option.some.injEq, List.cons.injEq, and_true] at h
+    obtain ⟨rfl, rfl⟩ := h
+    simp only [c3] at hr
+    refine ⟨⟨_, to_Vector3D_kw_eval K A be mom az a b s ("theta", .theta) (by simp), ⟨by simp, rfl⟩, ?_⟩,
+      ⟨_, to_Vector3D_kw_eval K A be mom az a b s ("eta", .eta) (by simp), ⟨by simp, rfl⟩, ?_⟩⟩
+    · simp only [denote, zOf, hr]
+    · simp only [denote, zOf, hr]
+  · simp [VT.dim] at hd
+  · simp [VT.dim] at hd
+
+/-- **embedding 3D → 4D**, evaluated for every temporal keyword -/
+theorem to_Vector4D_kw_eval (K : Consts ℝ) (A : Arith ℝ) (be mom az l) (a b c s : ℝ) :
+    ∀ p ∈ [("t", Tmp.t), ("e", Tmp.t), ("E", Tmp.t), ("energy", Tmp.t), ("tau", Tmp.tau), ("m", Tmp.tau),
+        ("M", Tmp.tau), ("mass", Tmp.tau)],
+      call evR K A "to_Vector4D" ⟨⟨be, mom, az, some l, none⟩, [a, b, c]⟩ [.kw p.1 s] =
+        .ok (.vec ⟨⟨be, mom, az, some l, some p.2⟩, [a, b, c, s]⟩) := by
+  intro p hp
+  simp only [List.mem_cons, List.not_mem_nil, or_false] at hp
+  rcases hp with rfl | rfl | rfl | rfl | rfl | rfl | rfl | rfl <;> rfl
+
+/-- **embedding 3D → 4D with `t=`/`energy=`** (or without keyword: `t = 0.0`): extension by the value;
+with `tau=`/`mass=`: extension by `√(τ² + |p|²)` of the denotation -/
+theorem c01m_to_Vector4D_t (K : Consts ℝ) (A : Arith ℝ) (v : Vec ℝ) (hv : WFV v) (hd : v.ty.dim = 3) (s : ℝ) :
+    (∃ w, call evR K A "to_Vector4D" v [.kw "t" s] = .ok (.vec w) ∧ WFV w ∧ denote w = (denote v).map (· ++ [s])) ∧
+    (∃ w, call evR K A "to_Vector4D" v [.kw "energy" s] = .ok (.vec w) ∧ WFV w ∧
+      denote w = (denote v).map (· ++ [s])) ∧
+    (∃ w, call evR K A "to_Vector4D" v [] = .ok (.vec w) ∧ WFV w ∧ denote w = (denote v).map (· ++ [K.zeroF])) ∧
+    (∃ w, call evR K A "to_Vector4D" v [.kw "tau" s] = .ok (.vec w) ∧ WFV w ∧
+      denote w = (denote v).map (fun p => p ++ [sqrt (s ^ 2 + (p.getD 0 0 ^ 2 + p.getD 1 0 ^ 2 + p.getD 2 0 ^ 2))])) ∧
+    (∃ w, call evR K A "to_Vector4D" v [.kw "mass" s] = .ok (.vec w) ∧ WFV w ∧
+      denote w = (denote v).map (fun p => p ++ [sqrt (s ^ 2 + (p.getD 0 0 ^ 2 + p.getD 1 0 ^ 2 + p.getD 2 0 ^ 2))])) := by
+  rcases wfv_cases hv with ⟨be, mom, az, a, b, rfl⟩ | ⟨be, mom, az, l, a, b, c, rfl⟩ |
+    ⟨be, mom, az, l, t, a, b, c, d, rfl⟩
+  · simp [VT.dim] at hd
+  · exact ⟨⟨_, rfl, ⟨by simp, rfl⟩, rfl⟩, ⟨_, rfl, ⟨by simp, rfl⟩, rfl⟩, ⟨_, rfl, ⟨by simp, rfl⟩, rfl⟩,
+      ⟨_, rfl, ⟨by simp, rfl⟩, rfl⟩, ⟨_, rfl, ⟨by simp, rfl⟩, rfl⟩⟩
+  · simp [VT.dim] at hd
+
+/-- **embedding 2D → 4D with `z=` and `t=`**: extension by both values -/
+theorem c01m_to_Vector4D_zt (K : Consts ℝ) (A : Arith ℝ) (v : Vec ℝ) (hv : WFV v) (hd : v.ty.dim = 2) (s u : ℝ) :
+    (∃ w, call evR K A "to_Vector4D" v [.kw "z" s, .kw "t" u] = .ok (.vec w) ∧ WFV w ∧
+      denote w = (denote v).map (· ++ [s, u])) ∧
+    (∃ w, call evR K A "to_Vector4D" v [] = .ok (.vec w) ∧ WFV w ∧
+      denote w = (denote v).map (· ++ [K.zeroF, K.zeroF])) := by
+  rcases wfv_cases hv with ⟨be, mom, az, a, b, rfl⟩ | ⟨be, mom, az, l, a, b, c, rfl⟩ |
+    ⟨be, mom, az, l, t, a, b, c, d, rfl⟩
+  · exact ⟨⟨_, rfl, ⟨by simp, rfl⟩, rfl⟩, ⟨_, rfl, ⟨by simp, rfl⟩, rfl⟩⟩
+  · simp [VT.dim] at hd
+  · simp [VT.dim] at hd
+
+/-! ### 5. the documented EXCEPTIONS `scale2D` / `scale3D`
+
+They scale the azimuthal (resp. spatial) STORED coordinates and pass the stored longitudinal (resp. temporal) coordinate
+through, but — unlike the rotations — do not preserve ρ (resp. |p|): two vectors with the same denotation give results
+with different denotations. -/
+
+private theorem cot_pi_div_four : cos (π / 4) / sin (π / 4) = 1 := by
+  rw [cos_pi_div_four, sin_pi_div_four]
+  exact div_self (by positivity)
+
+/-- `scale2D` is NOT coordinate independent: the θ-stored and the z-stored 3D vector both denote `(1, 0, 1)`; after
+`scale2D(2)` the first denotes `(2, 0, 2)` (θ kept), the second `(2, 0, 1)` (z kept) -/
+theorem c01m_scale2D_exception (K : Consts ℝ) (A : Arith ℝ) :
+    ∃ v₁ v₂ w₁ w₂ : Vec ℝ, WFV v₁ ∧ WFV v₂ ∧ denote v₁ = some [1, 0, 1] ∧ denote v₂ = some [1, 0, 1] ∧
+      call evR K A "scale2D" v₁ [.sc 2] = .ok (.vec w₁) ∧ call evR K A "scale2D" v₂ [.sc 2] = .ok (.vec w₂) ∧
+      denote w₁ = some [2, 0, 2] ∧ denote w₂ = some [2, 0, 1] ∧ denote w₁ ≠ denote w₂ := by
+  have h1 : sqrt ((1 : ℝ) ^ 2 + 0 ^ 2) = 1 := by norm_num
+  have h2 : sqrt (((1 : ℝ) * 2) ^ 2 + (0 * 2) ^ 2) = 2 := by
+    rw [show ((1 : ℝ) * 2) ^ 2 + (0 * 2) ^ 2 = 2 ^ 2 by norm_num, Real.sqrt_sq (by norm_num)]
+  have d1 : denote ⟨⟨.obj, false, .xy, some .theta, none⟩, [(1 : ℝ) * 2, 0 * 2, π / 4]⟩ = some [2, 0, 2] := by
+    simp only [denote, xOf, yOf, zOf, rhoOf, h2, cot_pi_div_four]; norm_num
+  have d2 : denote ⟨⟨.obj, false, .xy, some .z, none⟩, [(1 : ℝ) * 2, 0 * 2, 1]⟩ = some [2, 0, 1] := by
+    simp only [denote, xOf, yOf, zOf]; norm_num
+  refine ⟨⟨⟨.obj, false, .xy, some .theta, none⟩, [1, 0, π / 4]⟩, ⟨⟨.obj, false, .xy, some .z, none⟩, [1, 0, 1]⟩,
+    ⟨⟨.obj, false, .xy, some .theta, none⟩, [1 * 2, 0 * 2, π / 4]⟩, ⟨⟨.obj, false, .xy, some .z, none⟩, [1 * 2, 0 * 2, 1]⟩,
+    ⟨by simp, rfl⟩, ⟨by simp, rfl⟩, ?_, rfl, rfl, rfl, d1, d2, ?_⟩
+  · simp only [denote, xOf, yOf, zOf, rhoOf, h1, cot_pi_div_four, mul_one]
+  · rw [d1, d2]; norm_num
+
+/-- `scale3D` is NOT coordinate independent: the τ-stored and the t-stored 4D vector both denote `(1, 0, 0, 1)`; after
+`scale3D(2)` the first denotes `(2, 0, 0, 2)` (τ kept), the second `(2, 0, 0, 1)` (t kept) -/
+theorem c01m_scale3D_exception (K : Consts ℝ) (A : Arith ℝ) :
+    ∃ v₁ v₂ w₁ w₂ : Vec ℝ, WFV v₁ ∧ WFV v₂ ∧ denote v₁ = some [1, 0, 0, 1] ∧ denote v₂ = some [1, 0, 0, 1] ∧
+      call evR K A "scale3D" v₁ [.sc 2] = .ok (.vec w₁) ∧ call evR K A "scale3D" v₂ [.sc 2] = .ok (.vec w₂) ∧
+      denote w₁ = some [2, 0, 0, 2] ∧ denote w₂ = some [2, 0, 0, 1] ∧ denote w₁ ≠ denote w₂ := by
+  have h1 : sqrt ((0 : ℝ) ^ 2 + ((1 : ℝ) ^ 2 + 0 ^ 2 + 0 ^ 2)) = 1 := by norm_num
+  have h2 : sqrt ((0 : ℝ) ^ 2 + (((1 : ℝ) * 2) ^ 2 + (0 * 2) ^ 2 + (0 * 2) ^ 2)) = 2 := by
+    rw [show (0 : ℝ) ^ 2 + (((1 : ℝ) * 2) ^ 2 + (0 * 2) ^ 2 + (0 * 2) ^ 2) = 2 ^ 2 by norm_num,
+      Real.sqrt_sq (by norm_num)]
+  have d1 : denote ⟨⟨.obj, false, .xy, some .z, some .tau⟩, [(1 : ℝ) * 2, 0 * 2, 0 * 2, 0]⟩ = some [2, 0, 0, 2] := by
+    simp only [denote, xOf, yOf, zOf, tOf, mag2Of, h2]; norm_num
+  have d2 : denote ⟨⟨.obj, false, .xy, some .z, some .t⟩, [(1 : ℝ) * 2, 0 * 2, 0 * 2, 1]⟩ = some [2, 0, 0, 1] := by
+    simp only [denote, xOf, yOf, zOf, tOf]; norm_num
+  refine ⟨⟨⟨.obj, false, .xy, some .z, some .tau⟩, [1, 0, 0, 0]⟩, ⟨⟨.obj, false, .xy, some .z, some .t⟩, [1, 0, 0, 1]⟩,
+    ⟨⟨.obj, false, .xy, some .z, some .tau⟩, [1 * 2, 0 * 2, 0 * 2, 0]⟩,
+    ⟨⟨.obj, false, .xy, some .z, some .t⟩, [1 * 2, 0 * 2, 0 * 2, 1]⟩,
+    ⟨by simp, rfl⟩, ⟨by simp, rfl⟩, ?_, rfl, rfl, rfl, d1, d2, ?_⟩
+  · simp only [denote, xOf, yOf, zOf, tOf, mag2Of, h1]
+  · rw [d1, d2]; norm_num
+
+/-! ### C01 in its literal form: same denotation in, same denotation out -/
+
+/-- two vectors (any dimension ≥ 2, any storages, any backends/flavors) with the same denotation have `rotateZ` results with
+the same denotation -/
+theorem c01m_rotateZ_indep (K : Consts ℝ) (A : Arith ℝ) (v₁ v₂ : Vec ℝ) (h₁ : WFV v₁) (h₂ : WFV v₂)
+    (h : denote v₁ = denote v₂) (ang : ℝ) :
+    ∃ w₁ w₂, call evR K A "rotateZ" v₁ [.sc ang] = .ok (.vec w₁) ∧ call evR K A "rotateZ" v₂ [.sc ang] = .ok (.vec w₂) ∧
+      denote w₁ = denote w₂ := by
+  obtain ⟨w₁, e₁, -, -, d₁⟩ := c01m_rotateZ K A v₁ h₁ ang
+  obtain ⟨w₂, e₂, -, -, d₂⟩ := c01m_rotateZ K A v₂ h₂ ang
+  exact ⟨w₁, w₂, e₁, e₂, by rw [d₁, d₂, h]⟩
+
+/-- the same for `rotateX` on 3D/4D vectors (e.g. one stored as (ρ, φ, η, τ), the other as (x, y, z, t)) -/
+theorem c01m_rotateX_indep (K : Consts ℝ) (A : Arith ℝ) (v₁ v₂ : Vec ℝ) (h₁ : WFV v₁) (h₂ : WFV v₂)
+    (hd₁ : 3 ≤ v₁.ty.dim) (hd₂ : 3 ≤ v₂.ty.dim) (hT₁ : TanOKV v₁) (hT₂ : TanOKV v₂)
+    (h : denote v₁ = denote v₂) (ang : ℝ) :
+    ∃ w₁ w₂, call evR K A "rotateX" v₁ [.sc ang] = .ok (.vec w₁) ∧ call evR K A "rotateX" v₂ [.sc ang] = .ok (.vec w₂) ∧
+      denote w₁ = denote w₂ := by
+  obtain ⟨w₁, e₁, -, -, d₁⟩ := c01m_rotateX K A v₁ h₁ hd₁ hT₁ ang
+  obtain ⟨w₂, e₂, -, -, d₂⟩ := c01m_rotateX K A v₂ h₂ hd₂ hT₂ ang
+  exact ⟨w₁, w₂, e₁, e₂, by rw [d₁, d₂, h]⟩
+
+/-! ### non-vacuity of the hypotheses -/
+
+/-- a 4D vector stored as (ρ, φ, θ, τ) satisfying every hypothesis used above -/
+example : let v : Vec ℝ := ⟨⟨.obj, true, .rhophi, some .theta, some .tau⟩, [2, 1, 1, 3]⟩
+    WFV v ∧ 3 ≤ v.ty.dim ∧ TanOKV v ∧ Stored2 Canon2 v ∧ Stored2 (fun k a b => 0 < rhoOf k a b ∧ CanonPhi k a b) v ∧
+      Stored3 (fun k l a b c => Canon3 k l a b c ∧ 0 < mag2Of k l a b c) v ∧
+      Stored3 (fun k l a b c => 0 < rhoOf k a b ∧ TanOK l c ∧ SinOK l c ∧ CanonLon k l a b c) v := by
+  intro v
+  have hr : 0 < rhoOf .rhophi 2 1 := by norm_num [rhoOf]
+  have hpi : (1 : ℝ) < π := by linarith [two_le_pi]
+  have hcl : CanonLon .rhophi .theta 2 1 1 := ⟨hr, one_pos, hpi⟩
+  have hm : 0 < mag2Of .rhophi .theta 2 1 1 := by rw [Spec.mag2Of_eq]; positivity
+  exact ⟨⟨by simp [v], rfl⟩, by simp [v, VT.dim], ne_of_gt cos_one_pos, hr.le,
+    ⟨hr, show -π < (1 : ℝ) by linarith [pi_pos], hpi.le⟩, ⟨⟨hr.le, hcl⟩, hm⟩, hr, ne_of_gt cos_one_pos,
+    (sin_pos_of_pos_of_lt_pi one_pos hpi).ne', hcl⟩
+
+example : (1 : ℝ) ^ 2 + 0 ^ 2 + 0 ^ 2 + 0 ^ 2 = 1 ∧ (0 : ℝ) < 1 ^ 2 + 2 ^ 2 + 3 ^ 2 := by norm_num
 
 end C01M
 end VR
